@@ -551,6 +551,8 @@ def run(repo: Repo, rep):
     r5_purity(repo, rep)
     from .c12 import r3_selection  # the name-based selection this property's idioms rely on
     r3_selection(repo, rep)
+    from .c17 import r1_roundtrip  # a partially evaluated expression denotes the same set: every constructor argument (pivot, flags, sub-domains) must be carried over
+    r1_roundtrip(repo, rep)
 
 
 _U = "src/torchphysics/problem/domains/domainoperations/union.py"
